@@ -702,7 +702,12 @@ class HttpRequestParser(HttpParser[RawRequestMessage]):
         if method == "CONNECT":
             # authority-form,
             # https://datatracker.ietf.org/doc/html/rfc7230#section-5.3.3
-            url = URL.build(authority=path, encoded=True)
+            try:
+                url = URL.build(authority=path, encoded=True)
+            except ValueError as exc:
+                raise InvalidURLError(
+                    path.encode(errors="surrogateescape").decode("latin1")
+                ) from exc
         elif path.startswith("/"):
             # origin-form,
             # https://datatracker.ietf.org/doc/html/rfc7230#section-5.3.1
@@ -725,7 +730,15 @@ class HttpRequestParser(HttpParser[RawRequestMessage]):
         else:
             # absolute-form for proxy maybe,
             # https://datatracker.ietf.org/doc/html/rfc7230#section-5.3.2
-            url = URL(path, encoded=True)
+            try:
+                url = URL(path, encoded=True)
+                # yarl validates the port lazily, do it while the error can
+                # still be answered with a 400
+                _ = url.port
+            except ValueError as exc:
+                raise InvalidURLError(
+                    path.encode(errors="surrogateescape").decode("latin1")
+                ) from exc
             if not url.absolute:
                 # authority-form is only allowed with CONNECT
                 # https://www.rfc-editor.org/info/rfc9112/#section-3.2.3-1
